@@ -4,7 +4,7 @@
    hook-exported key sets of the two decoder tables). *)
 From V.lib Require Import Base.
 From V.c04 Require Import C04Model C04AsmModel C04ContainerProofs.
-From V.c03 Require Import C03Model C03Spec C03Registry C03Proofs C03CanonProofs C03LeafModel C03LeafProofs C03LeafBoxProofs C03LeafInstProofs.
+From V.c03 Require Import C03Model C03Spec C03Registry C03Proofs C03CanonProofs C03LeafModel C03LeafProofs C03LeafBoxProofs C03LeafInstProofs C03StsdProofs.
 Open Scope N_scope.
 
 (* Encode to an io.Writer and EncodeSW to a slice writer: identical bytes or both fail, for every container tree and
@@ -158,6 +158,24 @@ Theorem C03_pair_file_boxes_agree : forall cs, Forall (cwf pair_leaves) cs -> (l
 Proof. exact pair_file_boxes_agree. Qed.
 Print Assumptions C03_pair_file_boxes_agree.
 
+(* ---- stsd: DecodeStsd (binary.Read x2 on r, DecodeContainerChildren) vs DecodeStsdSR (ReadUint32 x2, DecodeContainerChildrenSR) ----
+   on every canonical stsd payload (version/flags, entry count = number of entries, canonical sample entries decoded by ANY leaf
+   decoder pair satisfying the leaf contract), wherever it sits in the caller's buffer / reader and whatever follows it: both
+   accept, with the same decoded value, and Size() = 8 + len payload.  fuel: any number above the bytes left. *)
+Theorem C03_stsd_pair_agree_canonical : forall ld, leaf_ok ld -> forall nm vf cnt kids,
+  (vf < 4294967296)%N -> lenN kids = cnt -> Forall (cwf ld) kids ->
+  (lenN (be4 vf ++ be4 cnt ++ cencs kids) < 4294967288)%N ->
+  forall pre post cst cst2 fuel,
+  (zlen (pre ++ (be4 vf ++ be4 cnt ++ cencs kids) ++ post) < two63)%Z ->
+  (zlen (pre ++ (be4 vf ++ be4 cnt ++ cencs kids) ++ post) - zlen pre < Z.of_nat fuel)%Z ->
+  fst (stsd_sr ld fuel (mkH nm (8 + lenN (be4 vf ++ be4 cnt ++ cencs kids)) 8) 0
+         (mkS (mkR (pre ++ (be4 vf ++ be4 cnt ++ cencs kids) ++ post) (zlen pre) false) cst)) = Ok (stsd_val vf cnt kids) /\
+  fst (stsd_r ld fuel (mkH nm (8 + lenN (be4 vf ++ be4 cnt ++ cencs kids)) 8) 0
+         (mkI (pre ++ (be4 vf ++ be4 cnt ++ cencs kids) ++ post) (lenN pre) cst2)) = Ok (stsd_val vf cnt kids) /\
+  stsd_size (stsd_val vf cnt kids) = (8 + lenN (be4 vf ++ be4 cnt ++ cencs kids))%N.
+Proof. exact stsd_pair_agree_canonical. Qed.
+Print Assumptions C03_stsd_pair_agree_canonical.
+
 (* the two dispatch tables register the same box types (regenerated from /repo on every run) *)
 Theorem C03_registry : keys_decoders = keys_decoders_sr.
 Proof. exact registry_equal. Qed.
@@ -232,4 +250,14 @@ Proof.
   - cbn [cwf]. split; [reflexivity|]. apply pair_canon_large_mdat. vm_compute. reflexivity.
 Qed.
 Example ex_frag_trees : map erase ex_frag = [Node name_moof [Node name_traf [Leaf name_trun 36; Leaf name_senc 24]]; Leaf name_mdat 20].
+Proof. vm_compute. reflexivity. Qed.
+
+(* an stsd with two entries (unknown sample entry types carried as opaque canonical leaves) decodes to the same value on both paths *)
+Example ex_stsd_kids : list ctree := [CLeaf [122;122;122;122]%N [1;2;3]%N; CLeaf [97;98;99;100]%N []].
+Example ex_stsd_wf : Forall (cwf pair_leaves) ex_stsd_kids.
+Proof.
+  constructor; [|constructor; [|constructor]]; (split; [reflexivity|]); apply pair_canon_std; try reflexivity;
+    (split; [reflexivity|]); (split; [reflexivity|]); (split; [vm_compute; reflexivity|]); intros H; discriminate H.
+Qed.
+Example ex_stsd_val : stsd_val 0 2 ex_stsd_kids = mkStsd 0 0 2 [Leaf [122;122;122;122]%N 11; Leaf [97;98;99;100]%N 8].
 Proof. vm_compute. reflexivity. Qed.
